@@ -62,10 +62,9 @@ class Rotate(Domain):
     """
 
     def __init__(self, domain: Domain, rotation_matrix, rotate_around=None):
-        if isinstance(domain, BoundaryDomain):
-            assert domain.dim >= 1, "Can only rotate domains in dimensions >= 2"
-        else:
-            assert domain.dim > 1, "Can only rotate domains in dimensions >= 2"
+        # the boundary of a rotated (translated, ...) domain is itself a Rotate
+        # (Translate, ...) object of dimension space.dim - 1, so check the space
+        assert domain.space.dim > 1, "Can only rotate domains in dimensions >= 2"
         if rotate_around is None:
             rotate_around = torch.zeros((1, domain.dim))
         self.domain = domain
